@@ -1555,7 +1555,7 @@ func (a *paAccounting) step(before, after paObs, t paTx, calls []bool) []string 
 }
 
 // ---------------------------------------------------------------- generators
-func i64p(x int64) *int64 { return &x }
+func paI64p(x int64) *int64 { return &x }
 
 func paStdSetup() paSetup {
 	s := paSetup{Reward: []string{"50000000000000000", "30000000000000000"}, Withdraw: []int{-1, -1, -1, -1, -1}}
@@ -1616,29 +1616,29 @@ func paStakeGStates() []paGState {
 	other := map[string]string{"delegate": "undelegate", "undelegate": "redelegate", "redelegate": "cancel", "cancel": "delegate"}
 	return []paGState{
 		{"absent", func(int, string, int64) []paGrant { return nil }, 0},
-		{"expired", mk("above", both, nil, i64p(1000)), 1001},
-		{"expires-this-block", mk("above", both, nil, i64p(1000)), 1000},
-		{"expires-this-block-unlimited", mk("", both, nil, i64p(1000)), 1000},
-		{"expires-this-block-exhausted", mk("equal", both, nil, i64p(1000)), 1000},
+		{"expired", mk("above", both, nil, paI64p(1000)), 1001},
+		{"expires-this-block", mk("above", both, nil, paI64p(1000)), 1000},
+		{"expires-this-block-unlimited", mk("", both, nil, paI64p(1000)), 1000},
+		{"expires-this-block-exhausted", mk("equal", both, nil, paI64p(1000)), 1000},
 		{"other-message-type", func(g int, k string, amt int64) []paGrant {
-			return []paGrant{{Granter: aO, Grantee: g, Kind: other[k], Limit: "", Allow: both, Exp: i64p(5000)}}
+			return []paGrant{{Granter: aO, Grantee: g, Kind: other[k], Limit: "", Allow: both, Exp: paI64p(5000)}}
 		}, 0},
 		{"generic-authorization", func(g int, k string, amt int64) []paGrant {
-			return []paGrant{{Granter: aO, Grantee: g, Kind: k, Generic: true, Exp: i64p(5000)}}
+			return []paGrant{{Granter: aO, Grantee: g, Kind: k, Generic: true, Exp: paI64p(5000)}}
 		}, 0},
-		{"validator-not-in-allow-list", mk("above", []int{0}, nil, i64p(5000)), 0},
-		{"validator-in-deny-list", mk("above", nil, []int{1}, i64p(5000)), 0},
-		{"other-validator-in-deny-list", mk("above", nil, []int{0}, i64p(5000)), 0},
-		{"limit-below", mk("below", both, nil, i64p(5000)), 0},
-		{"limit-equal", mk("equal", both, nil, i64p(5000)), 0},
-		{"limit-above", mk("above", both, nil, i64p(5000)), 0},
-		{"unlimited", mk("", both, nil, i64p(5000)), 0},
+		{"validator-not-in-allow-list", mk("above", []int{0}, nil, paI64p(5000)), 0},
+		{"validator-in-deny-list", mk("above", nil, []int{1}, paI64p(5000)), 0},
+		{"other-validator-in-deny-list", mk("above", nil, []int{0}, paI64p(5000)), 0},
+		{"limit-below", mk("below", both, nil, paI64p(5000)), 0},
+		{"limit-equal", mk("equal", both, nil, paI64p(5000)), 0},
+		{"limit-above", mk("above", both, nil, paI64p(5000)), 0},
+		{"unlimited", mk("", both, nil, paI64p(5000)), 0},
 		{"never-expires", mk("above", both, nil, nil), 100000},
 		{"granted-by-third-account", func(g int, k string, amt int64) []paGrant {
-			return []paGrant{{Granter: aP, Grantee: g, Kind: k, Limit: "", Allow: both, Exp: i64p(5000)}}
+			return []paGrant{{Granter: aP, Grantee: g, Kind: k, Limit: "", Allow: both, Exp: paI64p(5000)}}
 		}, 0},
 		{"granted-to-another-contract", func(g int, k string, amt int64) []paGrant {
-			return []paGrant{{Granter: aO, Grantee: aC3, Kind: k, Limit: "", Allow: both, Exp: i64p(5000)}}
+			return []paGrant{{Granter: aO, Grantee: aC3, Kind: k, Limit: "", Allow: both, Exp: paI64p(5000)}}
 		}, 0},
 	}
 }
@@ -1656,32 +1656,32 @@ func paIcsGStates() []paGState {
 	}
 	return []paGState{
 		{"absent", func(int, string, int64) []paGrant { return nil }, 0},
-		{"expired", mk(one(700), i64p(1000)), 1001},
-		{"expires-this-block", mk(one(700), i64p(1000)), 1000},
-		{"expires-this-block-exhausted", mk(one(0), i64p(1000)), 1000},
+		{"expired", mk(one(700), paI64p(1000)), 1001},
+		{"expires-this-block", mk(one(700), paI64p(1000)), 1000},
+		{"expires-this-block-exhausted", mk(one(0), paI64p(1000)), 1000},
 		{"generic-authorization", func(g int, k string, amt int64) []paGrant {
-			return []paGrant{{Granter: aO, Grantee: g, Kind: "transfer", Generic: true, Exp: i64p(5000)}}
+			return []paGrant{{Granter: aO, Grantee: g, Kind: "transfer", Generic: true, Exp: paI64p(5000)}}
 		}, 0},
 		{"receiver-not-allowed", mk(func(amt int64) []paAlloc {
 			return []paAlloc{{Chan: 0, Limits: [][]string{{"0", fmt.Sprint(amt + 700)}}, Allow: []int{1, 2}}}
-		}, i64p(5000)), 0},
+		}, paI64p(5000)), 0},
 		{"receiver-allowed", mk(func(amt int64) []paAlloc {
 			return []paAlloc{{Chan: 0, Limits: [][]string{{"0", fmt.Sprint(amt + 700)}}, Allow: []int{1, 0}}}
-		}, i64p(5000)), 0},
+		}, paI64p(5000)), 0},
 		{"other-denomination-only", mk(func(amt int64) []paAlloc {
 			return []paAlloc{{Chan: 0, Limits: [][]string{{"1", fmt.Sprint(amt + 700)}}}}
-		}, i64p(5000)), 0},
-		{"limit-below", mk(one(-1), i64p(5000)), 0},
-		{"limit-equal", mk(one(0), i64p(5000)), 0},
+		}, paI64p(5000)), 0},
+		{"limit-below", mk(one(-1), paI64p(5000)), 0},
+		{"limit-equal", mk(one(0), paI64p(5000)), 0},
 		{"limit-equal-other-denomination-left", mk(func(amt int64) []paAlloc {
 			return []paAlloc{{Chan: 0, Limits: [][]string{{"0", fmt.Sprint(amt)}, {"1", "55"}}}}
-		}, i64p(5000)), 0},
-		{"limit-above", mk(one(700), i64p(5000)), 0},
+		}, paI64p(5000)), 0},
+		{"limit-above", mk(one(700), paI64p(5000)), 0},
 		{"unbounded", mk(func(amt int64) []paAlloc {
 			return []paAlloc{{Chan: 0, Limits: [][]string{{"0", "max"}}}}
-		}, i64p(5000)), 0},
+		}, paI64p(5000)), 0},
 		{"granted-by-third-account", func(g int, k string, amt int64) []paGrant {
-			return []paGrant{{Granter: aP, Grantee: g, Kind: "transfer", Allocs: one(700)(amt), Exp: i64p(5000)}}
+			return []paGrant{{Granter: aP, Grantee: g, Kind: "transfer", Allocs: one(700)(amt), Exp: paI64p(5000)}}
 		}, 0},
 	}
 }
@@ -1734,7 +1734,7 @@ func paMatrix() []paNamedCase {
 					s.Grants = gs.grants(grantee, paSpend[m], amtOf(c))
 					if who == aP && gs.name == "granted-by-third-account" && m != "ics_transfer" {
 						// a third account that did grant the caller: still not the caller's to spend
-						s.Grants = append(s.Grants, paGrant{Granter: aO, Grantee: grantee, Kind: paSpend[m], Allow: []int{0, 1}, Exp: i64p(5000)})
+						s.Grants = append(s.Grants, paGrant{Granter: aO, Grantee: grantee, Kind: paSpend[m], Allow: []int{0, 1}, Exp: paI64p(5000)})
 					}
 					add(fmt.Sprintf("%s/%d-hops/named=%s/%s", m, len(path), paActorName[who], gs.name), s, path, gs.dt, c)
 				}
@@ -1754,7 +1754,7 @@ func paMatrix() []paNamedCase {
 					s.Withdraw = []int{aP, -1, aC3, -1, -1} // rewards of O go to P, those of C1 to C3
 					if gi == 1 && caller != aO {
 						for _, k := range []string{"delegate", "undelegate"} {
-							s.Grants = append(s.Grants, paGrant{Granter: aO, Grantee: caller, Kind: k, Allow: []int{0, 1}, Exp: i64p(5000)})
+							s.Grants = append(s.Grants, paGrant{Granter: aO, Grantee: caller, Kind: k, Allow: []int{0, 1}, Exp: paI64p(5000)})
 						}
 					}
 					c := paCall{M: m, Who: who, Val: 1, To: aC3, Amt: "1000", Catch: true}
@@ -1774,23 +1774,23 @@ func paMatrix() []paNamedCase {
 	}{
 		{"absent", func(int, string) []paGrant { return nil }, 0},
 		{"limited", func(g int, k string) []paGrant {
-			return []paGrant{{Granter: aO, Grantee: g, Kind: k, Limit: "1000", Allow: []int{0}, Exp: i64p(5000)}}
+			return []paGrant{{Granter: aO, Grantee: g, Kind: k, Limit: "1000", Allow: []int{0}, Exp: paI64p(5000)}}
 		}, 0},
 		{"unlimited", func(g int, k string) []paGrant {
-			return []paGrant{{Granter: aO, Grantee: g, Kind: k, Allow: []int{0, 1}, Exp: i64p(5000)}}
+			return []paGrant{{Granter: aO, Grantee: g, Kind: k, Allow: []int{0, 1}, Exp: paI64p(5000)}}
 		}, 0},
 		{"expired", func(g int, k string) []paGrant {
-			return []paGrant{{Granter: aO, Grantee: g, Kind: k, Limit: "1000", Allow: []int{0, 1}, Exp: i64p(1000)}}
+			return []paGrant{{Granter: aO, Grantee: g, Kind: k, Limit: "1000", Allow: []int{0, 1}, Exp: paI64p(1000)}}
 		}, 2000},
 		{"expires-this-block", func(g int, k string) []paGrant {
-			return []paGrant{{Granter: aO, Grantee: g, Kind: k, Limit: "1000", Allow: []int{0, 1}, Exp: i64p(1000)}}
+			return []paGrant{{Granter: aO, Grantee: g, Kind: k, Limit: "1000", Allow: []int{0, 1}, Exp: paI64p(1000)}}
 		}, 1000},
 		{"generic", func(g int, k string) []paGrant {
-			return []paGrant{{Granter: aO, Grantee: g, Kind: k, Generic: true, Exp: i64p(5000)}}
+			return []paGrant{{Granter: aO, Grantee: g, Kind: k, Generic: true, Exp: paI64p(5000)}}
 		}, 0},
 		{"third-account-granted-the-same", func(g int, k string) []paGrant {
-			return []paGrant{{Granter: aP, Grantee: g, Kind: k, Limit: "1000", Allow: []int{0, 1}, Exp: i64p(5000)},
-				{Granter: g, Grantee: aP, Kind: k, Limit: "77", Allow: []int{0, 1}, Exp: i64p(5000)}}
+			return []paGrant{{Granter: aP, Grantee: g, Kind: k, Limit: "1000", Allow: []int{0, 1}, Exp: paI64p(5000)},
+				{Granter: g, Grantee: aP, Kind: k, Limit: "77", Allow: []int{0, 1}, Exp: paI64p(5000)}}
 		}, 0},
 	}
 	for _, m := range []string{"approve", "increase", "decrease", "revoke"} {
@@ -1836,16 +1836,16 @@ func paMatrix() []paNamedCase {
 	}{
 		{"absent", func(int) []paGrant { return nil }, 0},
 		{"two-denominations", func(g int) []paGrant {
-			return []paGrant{{Granter: aO, Grantee: g, Kind: "transfer", Allocs: []paAlloc{{Chan: 0, Limits: [][]string{{"0", "1000"}, {"1", "50"}}, Allow: []int{0}}}, Exp: i64p(5000)}}
+			return []paGrant{{Granter: aO, Grantee: g, Kind: "transfer", Allocs: []paAlloc{{Chan: 0, Limits: [][]string{{"0", "1000"}, {"1", "50"}}, Allow: []int{0}}}, Exp: paI64p(5000)}}
 		}, 0},
 		{"unbounded", func(g int) []paGrant {
-			return []paGrant{{Granter: aO, Grantee: g, Kind: "transfer", Allocs: []paAlloc{{Chan: 0, Limits: [][]string{{"0", "max"}}}}, Exp: i64p(5000)}}
+			return []paGrant{{Granter: aO, Grantee: g, Kind: "transfer", Allocs: []paAlloc{{Chan: 0, Limits: [][]string{{"0", "max"}}}}, Exp: paI64p(5000)}}
 		}, 0},
 		{"expired", func(g int) []paGrant {
-			return []paGrant{{Granter: aO, Grantee: g, Kind: "transfer", Allocs: []paAlloc{{Chan: 0, Limits: [][]string{{"0", "1000"}}}}, Exp: i64p(1000)}}
+			return []paGrant{{Granter: aO, Grantee: g, Kind: "transfer", Allocs: []paAlloc{{Chan: 0, Limits: [][]string{{"0", "1000"}}}}, Exp: paI64p(1000)}}
 		}, 2000},
 		{"generic", func(g int) []paGrant {
-			return []paGrant{{Granter: aO, Grantee: g, Kind: "transfer", Generic: true, Exp: i64p(5000)}}
+			return []paGrant{{Granter: aO, Grantee: g, Kind: "transfer", Generic: true, Exp: paI64p(5000)}}
 		}, 0},
 	}
 	for _, path := range paPaths() {
@@ -1912,7 +1912,7 @@ func paGenHistory(r *Rng) paInput {
 			if !r.Chance(45) {
 				continue
 			}
-			gr := paGrant{Granter: aO, Grantee: g, Kind: k, Exp: i64p(int64(1000 + r.Intn(3)*40000000))}
+			gr := paGrant{Granter: aO, Grantee: g, Kind: k, Exp: paI64p(int64(1000 + r.Intn(3)*40000000))}
 			if r.Chance(70) {
 				gr.Limit = fmt.Sprint(200 + r.Intn(1500))
 			}
@@ -1941,11 +1941,11 @@ func paGenHistory(r *Rng) paInput {
 			if r.Chance(25) {
 				al.Allow = []int{r.Intn(3)}
 			}
-			s.Grants = append(s.Grants, paGrant{Granter: aO, Grantee: g, Kind: "transfer", Allocs: []paAlloc{al}, Exp: i64p(int64(1000 + r.Intn(3)*40000000))})
+			s.Grants = append(s.Grants, paGrant{Granter: aO, Grantee: g, Kind: "transfer", Allocs: []paAlloc{al}, Exp: paI64p(int64(1000 + r.Intn(3)*40000000))})
 		}
 	}
 	if r.Chance(30) {
-		s.Grants = append(s.Grants, paGrant{Granter: aP, Grantee: aC1, Kind: "delegate", Limit: "900", Allow: []int{0, 1}, Exp: i64p(90000000)})
+		s.Grants = append(s.Grants, paGrant{Granter: aP, Grantee: aC1, Kind: "delegate", Limit: "900", Allow: []int{0, 1}, Exp: paI64p(90000000)})
 	}
 	in := paInput{Setup: s}
 	nUnd, nRed, poisoned := 0, 0, false
